@@ -45,22 +45,58 @@ pub fn wrap(layers: &[LayerF], leaf: Arc<dyn Kinematics>) -> Arc<dyn Kinematics>
     cur
 }
 
+fn leaf_for(p: Parameters, limits: &Option<(Joints, Joints, f64)>) -> Arc<dyn Kinematics> {
+        match limits {
+            Some((f, t, w)) => {
+                // every second constrained robot obtains its limits through update_range from unrelated ones
+                // (the unrelated ones are narrow or permissive, so that stale state of either kind would show)
+                let c = match (f[0].to_bits() >> 3) & 3 {
+                    0 | 1 => Constraints::new(*f, *t, *w),
+                    2 => {
+                        let mut c = Constraints::new([0.3, -2.0, 1.0, 2.9, -0.2, 0.0], [0.9, -1.0, 1.1, 3.3, 0.2, 0.0], *w);
+                        c.update_range(*f, *t);
+                        c
+                    }
+                    _ => {
+                        let mut c = Constraints::new([-2.4, -3.1, -1.9, -3.0, -2.2, -3.1], [3.1, 2.0, 3.1, 2.6, 3.0, 2.3], *w);
+                        c.update_range(*f, *t);
+                        c
+                    }
+                };
+                Arc::new(OPWKinematics::new_with_constraints(p, c))
+            }
+            None => Arc::new(OPWKinematics::new(p)),
+        }
+}
+
 impl Robot {
     pub fn new(p: Parameters, layers: Vec<LayerF>, limits: Option<(Joints, Joints, f64)>) -> Robot {
         let free: Arc<dyn Kinematics> = wrap(&layers, Arc::new(OPWKinematics::new(p)));
-        let kin: Arc<dyn Kinematics> = match &limits {
-            Some((f, t, w)) => {
-                // every second constrained robot obtains its limits through update_range from unrelated ones
-                let c = if (f[0].to_bits() >> 3) & 1 == 0 { Constraints::new(*f, *t, *w) } else {
-                    let mut c = Constraints::new([0.3, -2.0, 1.0, 2.9, -0.2, 0.0], [0.9, -1.0, 1.1, 3.3, 0.2, 0.0], *w);
-                    c.update_range(*f, *t);
-                    c
-                };
-                wrap(&layers, Arc::new(OPWKinematics::new_with_constraints(p, c)))
-            }
-            None => wrap(&layers, Arc::new(OPWKinematics::new(p))),
-        };
+        let kin: Arc<dyn Kinematics> = wrap(&layers, leaf_for(p, &limits));
         Robot { p, layers, limits, kin, free }
+    }
+    /// The wrappers are configured by their (public) fields, not by their history: rebuild the outermost wrapper
+    /// with another transform / coupling, let it answer the coming query once, then assign the real value to its
+    /// field in place (same object, same address).
+    pub fn reseat(&mut self, pose: &Pose, prev: &Joints, j6: f64, q: &Joints, r: &mut StdRng) {
+        let Some(first) = self.layers.first().cloned() else { return };
+        let inner = wrap(&self.layers[1..], leaf_for(self.p, &self.limits));
+        let seed = |k: &dyn Kinematics| {
+            for entry in ["inverse", "inverse_continuing", "inverse_5dof", "inverse_continuing_5dof"] { let _ = call(k, entry, pose, prev, j6); }
+            let _ = guarded(|| (k.forward(q), k.forward_with_joint_poses(q)));
+        };
+        let other = random_iso(r, 0.3).to_na();
+        self.kin = match first {
+            LayerF::Tool(i) => { let mut a = Arc::new(Tool { robot: inner, tool: other }); seed(a.as_ref()); Arc::get_mut(&mut a).unwrap().tool = i.to_na(); a }
+            LayerF::Frame(i) => { let mut a = Arc::new(Frame { robot: inner, frame: other }); seed(a.as_ref()); Arc::get_mut(&mut a).unwrap().frame = i.to_na(); a }
+            LayerF::Base(i) => { let mut a = Arc::new(Base { robot: inner, base: other }); seed(a.as_ref()); Arc::get_mut(&mut a).unwrap().base = i.to_na(); a }
+            LayerF::Pgram { driven, coupled, scaling } => {
+                let mut a = Arc::new(Parallelogram { robot: inner, driven, coupled, scaling: scaling + r.gen_range(0.3..1.0) });
+                seed(a.as_ref());
+                Arc::get_mut(&mut a).unwrap().scaling = scaling;
+                a
+            }
+        };
     }
     /// joint vector seen by the leaf (parallelogram couplings applied, outermost first)
     pub fn leaf_joints(&self, q: &Joints) -> Joints {
@@ -191,19 +227,21 @@ fn truth_for(class: &str, p: &mut Parameters, r: &mut StdRng) -> [f64; 6] {
             "j5-tiny" => e[4] = 10f64.powf(r.gen_range(-12.5..-8.5)) * if r.gen_bool(0.5) { 1.0 } else { -1.0 },
             "j5-pi" => e[4] = PI,
             "stretched" => e[2] = -psi3(p),
-            "on-j1-axis" => {
-                p.b = 0.0;
+            "on-j1-axis" | "near-j1-axis" => {
+                // signed distance of the wrist centre from the J1 axis (in the arm plane): 0, or anything between the
+                // J1 axis and the J2 axis and as far again on the other side (|x| < |a1|)
+                let x = if class == "on-j1-axis" { p.b = 0.0; 0.0 } else { r.gen_range(-1.0..1.0) * p.a1.abs().max(0.15) };
                 let k = (p.a2 * p.a2 + p.c3 * p.c3).sqrt();
                 let phi = r.gen_range(-1.0..1.0f64);
                 e[2] = phi - psi3(p);
                 let amp = (p.c2 * p.c2 + k * k + 2.0 * p.c2 * k * phi.cos()).sqrt();
-                if amp <= p.a1.abs() * 1.05 { continue; }
+                if amp <= (x - p.a1).abs() * 1.05 { continue; }
                 let delta = (k * phi.sin()).atan2(p.c2 + k * phi.cos());
-                e[1] = (-p.a1 / amp).asin() - delta;
+                e[1] = ((x - p.a1) / amp).asin() - delta;
             }
             _ => {}
         }
-        if class == "generic" || class == "unreachable" || class == "nan" || class == "inf" {
+        if class == "generic" || class == "unreachable" || class == "nan" || class == "inf" || class == "near-j1-axis" {
             let q = from_effective(p, &e);
             if !nonsingular(&margins(p, &q)) { continue; }
         }
@@ -256,15 +294,9 @@ fn centres(robot: &Robot) -> [f64; 6] {
     match &robot.limits { Some((f, t, w)) => Constraints::new(*f, *t, *w).centers, None => [0.0; 6] }
 }
 
-/// One scenario instance -> one "ik" event.
-pub fn instance(sc: &Value, r: &mut StdRng) -> Value {
-    let entry = sc["entry"].as_str().unwrap();
+/// The robot description of a scenario.
+pub fn make_params(sc: &Value, r: &mut StdRng) -> Parameters {
     let dof = sc["dof"].as_i64().unwrap() as i8;
-    let pose_class = sc["pose"].as_str().unwrap();
-    let prev_class = sc["prev"].as_str().unwrap();
-    let five_entry = entry.contains("5dof");
-    let five = five_entry || dof == 5;
-    // robot
     let mut p = robots::geometry(sc["geom"].as_str().unwrap(), r);
     p = robots::convention(p, sc["signs"].as_u64().unwrap() as usize, sc["offsets"].as_str().unwrap(), r);
     p.dof = dof;
@@ -280,19 +312,76 @@ pub fn instance(sc: &Value, r: &mut StdRng) -> Value {
             let _ = std::fs::remove_file(&path);
         }
     }
-    let e = truth_for(pose_class, &mut p, r);
+    p
+}
+
+/// One scenario instance -> one "ik" event.
+pub fn instance(sc: &Value, r: &mut StdRng) -> Value {
+    let p = make_params(sc, r);
+    instance_p(sc, p, None, r).0
+}
+
+/// A family of calls on one thread: robot A, a sibling B that shares part of A's description (same effective
+/// angles, hence the same pose when the geometry is shared), then A again, exactly as the first time.
+/// Every call is judged on its own: an answer is a function of the robot and the arguments, not of the calls before.
+pub fn family(sc: &Value, r: &mut StdRng) -> Vec<Value> {
+    let p = make_params(sc, r);
+    let r0 = r.clone();
+    let (a, shared) = instance_p(sc, p, None, r);
+    let pb = robots::sibling(&p, r);
+    let (mut b, _) = instance_p(sc, pb, Some(&shared), r);
+    let (mut a2, _) = instance_p(sc, p, None, &mut r0.clone());
+    b["member"] = json!("sibling");
+    a2["member"] = json!("again");
+    vec![a, b, a2]
+}
+
+/// What a sibling takes over from the first robot of a family.
+pub struct Shared {
+    pub p: Parameters,
+    pub e: [f64; 6],
+    pub layers: Vec<LayerF>,
+    pub want: Iso,
+}
+
+/// The event of one call of the scenario's entry point on robot `p`; `shared`: effective angles to use instead of
+/// drawing them (pose classes that are tied to the geometry draw their own) and, for every second sibling, the
+/// wrapper stack; a sibling with the same geometry and stack is asked the very same (bitwise) pose.
+pub fn instance_p(sc: &Value, p: Parameters, shared: Option<&Shared>, r: &mut StdRng) -> (Value, Shared) {
+    let truth = shared.map(|s| s.e);
+    let entry = sc["entry"].as_str().unwrap();
+    let dof = sc["dof"].as_i64().unwrap() as i8;
+    let pose_class = sc["pose"].as_str().unwrap();
+    let prev_class = sc["prev"].as_str().unwrap();
+    let five_entry = entry.contains("5dof");
+    let five = five_entry || dof == 5;
+    let mut p = p;
+    let e = match truth {
+        Some(e) if !matches!(pose_class, "stretched" | "on-j1-axis" | "near-j1-axis") => {
+            let q = from_effective(&p, &e);
+            if matches!(pose_class, "generic" | "unreachable" | "nan" | "inf") && !nonsingular(&margins(&p, &q)) { truth_for(pose_class, &mut p, r) } else { e }
+        }
+        _ => truth_for(pose_class, &mut p, r),
+    };
     let mut q = from_effective(&p, &e);
     if dof == 5 && !five_entry && entry == "inverse" { q[5] = 0.0; } // a 5-DOF robot's plain inverse answers with J6 = 0
-    let layers = stack_for(sc["stack"].as_str().unwrap(), r);
+    let own_layers = stack_for(sc["stack"].as_str().unwrap(), r);
+    let same_stack = shared.is_some() && r.gen_bool(0.5);
+    let layers = if same_stack { shared.unwrap().layers.clone() } else { own_layers };
     let leaf_q = q;
     let pgram = layers.iter().any(|l| matches!(l, LayerF::Pgram { .. }));
     let q = outer_joints(&layers, &leaf_q);
     let w16 = sc["w16"].as_i64().unwrap();
     let limits = limits_for(sc["limits"].as_str().unwrap(), &q, w16 as f64 / 16.0, r);
-    let robot = Robot::new(p, layers, limits);
+    let mut robot = Robot::new(p, layers, limits);
     let m = margins(&p, &leaf_q);
     // pose
     let mut want = robot.ofk(&q);
+    if let Some(sh) = shared {
+        let g = |x: &Parameters| [x.a1, x.a2, x.b, x.c1, x.c2, x.c3, x.c4];
+        if same_stack && g(&sh.p) == g(&p) && sh.e == e && want.dpos(&sh.want) < 1e-9 && want.drot(&sh.want) < 1e-9 { want = sh.want; }
+    }
+    let own_want = want;
     let mut pose_ok = true;
     let mut reach = match pose_class { "stretched" | "on-j1-axis" => "edge", _ => "yes" };
     match pose_class {
@@ -353,6 +442,9 @@ pub fn instance(sc: &Value, r: &mut StdRng) -> Value {
         j6 = bad;
         if prev_class != "centered" { prev[5] = bad; prev_in_range = false; }
     }
+    // one stack in three had its outermost wrapper re-configured in place after it answered the same query
+    let reseated = r.gen_bool(0.34);
+    if reseated { robot.reseat(&pose, &prev, j6, &q, r); }
     // calls
     let ans = call(robot.kin.as_ref(), entry, &pose, &prev, j6);
     let base = json!({"ev": "ik", "sc": sc["id"], "entry": entry, "dof": dof, "geom": sc["geom"], "stack": sc["stack"], "pose_class": pose_class,
@@ -361,7 +453,7 @@ pub fn instance(sc: &Value, r: &mut StdRng) -> Value {
     let Some(ans) = ans else {
         ev.insert("outcome".into(), json!("panic"));
         ev.insert("params".into(), robots::params_json(&p));
-        return Value::Object(ev);
+        return (Value::Object(ev), Shared { p, e, layers: robot.layers.clone(), want: own_want });
     };
     let centered = prev_class == "centered";
     let caller_j6 = if entry == "inverse_5dof" { j6 } else if entry == "inverse" { 0.0 } else { prev[5] };
@@ -388,6 +480,7 @@ pub fn instance(sc: &Value, r: &mut StdRng) -> Value {
     let c = centres(&robot);
     let (lf, lt) = match &robot.limits { Some((f, t, _)) => (au6(f), au6(t)), None => (vec![0; 6], vec![0; 6]) };
     ev.insert("outcome".into(), json!("ok"));
+    ev.insert("reseated".into(), json!(reseated));
     ev.insert("pose_ok".into(), json!(pose_ok));
     ev.insert("reach".into(), json!(reach));
     ev.insert("prev".into(), if centered { json!([]) } else { json!(au6(&prev)) });
@@ -430,7 +523,38 @@ pub fn instance(sc: &Value, r: &mut StdRng) -> Value {
     ev.insert("params".into(), robots::params_json(&p));
     // the wrist twin negates the GEOMETRIC J5: in robot coordinates -q5 + 2*sign5*offset5
     ev.insert("twin_shift5".into(), json!(rad2au(norm_pi(2.0 * p.sign_corrections[4] as f64 * p.offsets[4]))));
-    Value::Object(ev)
+    // the limits a wrapper stack reports are those of the robot it wraps
+    let reported = guarded(|| match (robot.kin.constraints(), &robot.limits) {
+        (None, None) => true,
+        (Some(c), Some((f, t, w))) => { let x = Constraints::new(*f, *t, *w); c.from == x.from && c.to == x.to && c.centers == x.centers && c.tolerances == x.tolerances && c.sorting_weight == x.sorting_weight }
+        _ => false,
+    }).unwrap_or(false);
+    ev.insert("lim_reported".into(), json!(reported));
+    (Value::Object(ev), Shared { p, e, layers: robot.layers.clone(), want: own_want })
+}
+
+const OFFS: [&str; 3] = ["zero", "quarter", "random"];
+const W16S: [i64; 6] = [0, 4, 8, 12, 16, 5];
+const STACKS: [&str; 11] = ["bare", "tool", "base", "base+tool", "frame", "tool>base", "pgram", "tool>pgram", "pgram>pgram", "pgram>tool", "pgram>base+tool"];
+const STACKS5: [&str; 4] = ["bare", "axial-tool", "base", "base+axial-tool"];
+
+fn rotate(sc: &Value, i: usize) -> Value {
+    let mut s = sc.clone();
+    if i == 0 { return s; }
+    let shift = |list: &[&str], cur: &Value, by: usize| -> Value {
+        let at = list.iter().position(|x| Some(*x) == cur.as_str()).unwrap_or(0);
+        json!(list[(at + by) % list.len()])
+    };
+    s["geom"] = shift(&robots::GEOMETRY_CLASSES, &sc["geom"], i);
+    s["offsets"] = shift(&OFFS, &sc["offsets"], i / 2);
+    s["signs"] = json!((sc["signs"].as_u64().unwrap() as usize + 29 * i) % 64);
+    let five = sc["entry"].as_str().unwrap().contains("5dof") || sc["dof"] == 5;
+    s["stack"] = if five { shift(&STACKS5, &sc["stack"], i / 3) } else { shift(&STACKS, &sc["stack"], i / 3) };
+    if sc["limits"] != "none" {
+        let at = W16S.iter().position(|x| Some(*x) == sc["w16"].as_i64()).unwrap_or(0);
+        s["w16"] = json!(W16S[(at + i / 2) % 6]);
+    }
+    s
 }
 
 /// record ik <scenarios.ndjson> <out> : k instances of every scenario
@@ -440,22 +564,27 @@ pub fn record(scenarios: &str, output: &str) {
     let mut out = Out::create(output);
     let k = std::env::var("VERIF_INSTANCES").ok().and_then(|s| s.parse().ok()).unwrap_or(if thorough() { 12 } else { 3 });
     let focus = std::env::var("VERIF_FOCUS").unwrap_or_default();
-    for sc in &scs {
-        // focus filters (a check asks only for the scenarios its clauses can speak about)
-        let keep = match focus.as_str() {
-            "C02" => (sc["entry"] == "inverse" && sc["dof"] == 6) || (sc["limits"] == "none" && sc["pose"] == "generic" && !sc["stack"].as_str().unwrap().contains("pgram")),
-            "C04" => sc["entry"].as_str().unwrap().contains("continuing"),
-            "C06" => sc["entry"].as_str().unwrap().contains("5dof") || sc["dof"] == 5,
-            "C08" => sc["limits"] != "none",
-            "C16" => sc["stack"].as_str().unwrap().contains("pgram"),
-            "C09" => sc["stack"] != "bare" && !sc["stack"].as_str().unwrap().contains("pgram"),
-            _ => true,
-        };
-        if !keep { continue; }
-        let id = sc["id"].as_u64().unwrap();
+    for sc0 in &scs {
+        let id = sc0["id"].as_u64().unwrap();
         for i in 0..k {
+            // the dimensions that Gen_Scenarios spreads over the core product by strides (geometry class, sign pattern,
+            // offset class, weight, wrapper stack) are rotated further from instance to instance, so that every core
+            // scenario meets every geometry class within nine instances
+            let sc = &rotate(sc0, i);
+            // focus filters (a check asks only for the scenarios its clauses can speak about)
+            let keep = match focus.as_str() {
+                "C02" => (sc["entry"] == "inverse" && sc["dof"] == 6) || (sc["limits"] == "none" && sc["pose"] == "generic" && !sc["stack"].as_str().unwrap().contains("pgram")),
+                "C04" => sc["entry"].as_str().unwrap().contains("continuing"),
+                "C06" => sc["entry"].as_str().unwrap().contains("5dof") || sc["dof"] == 5,
+                "C08" => sc["limits"] != "none",
+                "C16" => sc["stack"].as_str().unwrap().contains("pgram"),
+                "C09" => sc["stack"] != "bare" && !sc["stack"].as_str().unwrap().contains("pgram"),
+                _ => true,
+            };
+            if !keep { continue; }
             let mut r = rng(1_000_003 * id + i as u64);
-            out.put(instance(sc, &mut r));
+            // every third instance of a scenario is a family of related robots called in turn
+            if i % 3 == 2 { for ev in family(sc, &mut r) { out.put(ev); } } else { out.put(instance(sc, &mut r)); }
         }
     }
     out.finish();
@@ -500,7 +629,7 @@ pub fn record_follow(output: &str) {
             let ans = call(robot.kin.as_ref(), "inverse_continuing", &want.to_na(), &prev, 0.0);
             let mut ev = json!({"ev": "follow", "k": k + 1, "entry": "inverse_continuing", "dof": 6, "geom": class, "stack": stack_class,
                 "pose_ok": true, "reach": "yes", "pgram": false, "j6_finite": true, "huge": false, "prev": au6(&prev), "prev_in_range": true, "j6_equal": [], "w16": 0, "centres": [0,0,0,0,0,0],
-                "lim": false, "from": [0,0,0,0,0,0], "to": [0,0,0,0,0,0], "plain": [], "free": [], "resolve": [], "twin_shift5": 0, "fwd_n": 0,
+                "lim": false, "from": [0,0,0,0,0,0], "to": [0,0,0,0,0,0], "plain": [], "free": [], "resolve": [], "twin_shift5": 0, "fwd_n": 0, "lim_reported": true, "reseated": false,
                 "truth": {"known": true, "q": au6(q), "nonsingular": true, "wrist_ok": true, "realised_by_prev": false}});
             match ans {
                 None => { ev["outcome"] = json!("panic"); ev["answers"] = json!([]); out.put(ev); break; }
